@@ -4,3 +4,4 @@ void h_vsshe(void) { GrothVSSHE *self; size_t n; ios_t *in; unsigned long l, f, 
   __CPROVER_assert(__tmcg_thrown != 0, "REACHABILITY-CANARY (must fail): a construction without exception exists"); }
 void h_skc_cg(void) { GrothSKC *self; GrothSKC__CheckGroup(self); }
 void h_vsshe_cg(void) { GrothVSSHE *self; GrothVSSHE__CheckGroup(self); }
+void h_vsshe_pub(void) { GrothVSSHE *self; ios_t *out; GrothVSSHE__PublishGroup(self, out); }
